@@ -312,7 +312,26 @@ func tileMain(args []string) error {
 			// what sits between the feeder and the log differs per worker: nothing, a compressing front end, a redirect to a canonical location
 			fl := strings.Split(*fronts, ",")
 			front := fl[wk%len(fl)]
-			ts := httptest.NewServer(stublog.FrontEnd(h, front))
+			// "slowonce": ONE slow moment per cycle - the first data request after the front end was armed is answered only after 600 ms (longer
+			// than the 200 ms timeout of the HTTP client behind it), everything else at once
+			var slowArmed atomic.Bool
+			fh := stublog.FrontEnd(h, front)
+			if front == "slowonce" {
+				inner := h
+				fh = http.HandlerFunc(func(rw http.ResponseWriter, r *http.Request) {
+					pth := strings.TrimRight(r.URL.Path, "/")
+					isCP := strings.HasSuffix(pth, "/checkpoint") || strings.HasSuffix(pth, "/latest") || strings.HasSuffix(pth, "/checkpoint.txt") || strings.HasSuffix(pth, "/api/v1/log")
+					if !isCP && slowArmed.CompareAndSwap(true, false) {
+						select {
+						case <-time.After(600 * time.Millisecond):
+						case <-r.Context().Done():
+							return
+						}
+					}
+					inner.ServeHTTP(rw, r)
+				})
+			}
+			ts := httptest.NewServer(fh)
 			defer ts.Close()
 			tag += "/" + front
 			lc, err := config.NewLog(origin, vkey, stublog.URLOf(ts.URL, front)+suffix)
@@ -337,7 +356,7 @@ func tileMain(args []string) error {
 					firstErr = err
 					return
 				}
-				ctx, cancel := context.WithTimeout(context.Background(), 4*time.Second)
+				ctx, cancel := context.WithTimeout(context.Background(), 8*time.Second)
 				r1 := l.Trees[0].Root(p.from)
 				text := ref.CheckpointText(l.Origin, p.from, r1[:], "")
 				if _, err := wit.Update(ctx, l.ID, 0, []byte(text+"\n"+l.Key.SignLegacy(text)), nil); err != nil {
@@ -346,6 +365,7 @@ func tileMain(args []string) error {
 				}
 				sl.Publish(0, p.to)
 				rw := &recWitness{inner: witnessAdapterOf(wit)}
+				slowArmed.Store(true)
 				ferr := feed(ctx, lc, rw, hc, 0)
 				cancel()
 				r2 := l.Trees[0].Root(p.to)
